@@ -109,6 +109,13 @@ Init == \/ /\ "genome" \in Modes /\ mode = "genome" /\ phase = "traits" /\ g = E
            /\ x \in [fit : OrgFits, gen : OrgGens, hf : {ZERO, 2}, pcc : BOOLEAN, g : {PoolG(k) : k \in 1 .. PoolSize}]
         \/ /\ "pop" \in Modes /\ mode = "pop" /\ phase = "emit" /\ g = Empty
            /\ \E ks \in SeqsUpTo(1 .. PoolSize, MaxPop) : x = [i \in DOMAIN ks |-> WithId(ks[i], i - 1)]
+        \/ /\ "popsp" \in Modes /\ mode = "popsp" /\ phase = "emit" /\ g = Empty
+           /\ \E ks \in SeqsUpTo(1 .. PoolSize, MaxPop) \ {<<>>} :
+                \E cut \in DOMAIN ks, wins \in [DOMAIN ks -> BOOLEAN], fits \in {f \in [DOMAIN ks -> DOMAIN ks] : \A i, j \in DOMAIN ks : f[i] = f[j] => i = j} :
+                   LET org(i) == [g |-> WithId(ks[i], i - 1), fit |-> fits[i], win |-> wins[i]]
+                       first == [i \in 1 .. cut |-> org(i)]
+                       rest == [i \in 1 .. Len(ks) - cut |-> org(cut + i)]
+                   IN x = IF rest = <<>> THEN <<first>> ELSE <<first, rest>>
         \/ /\ "exp" \in Modes /\ mode = "exp" /\ phase = "emit" /\ g = Empty
            /\ x \in SeqsUpTo(SeqsUpTo(GenChoices, MaxGens), MaxTrials)
 
@@ -119,6 +126,8 @@ CaseOf ==
             yaml_exact |-> NEGZERO \notin GenomeSyms(g), fast |-> FastDoc(FastOf(g, "net"))]
       [] mode = "org" -> [kind |-> "org", o |-> x, lines |-> Render(OrgLines(x))]
       [] mode = "pop" -> [kind |-> "pop", gs |-> x, lines |-> Render(PopLines(x))]
+      [] mode = "popsp" -> [kind |-> "popsp", sps |-> x, lines |-> Render(BySpeciesLines(x)),
+                            order |-> Map(BySpeciesGenomes(x), LAMBDA gg : gg.id)]
       [] mode = "exp" ->
            LET e == ExpOf(x) IN
            [kind |-> "exp", sk |-> x, e |-> e, other |-> ExpOf(Other(x)),
@@ -150,6 +159,7 @@ Organism == /\ mode = "genome" /\ phase # "traits" => OrgLaw([fit |-> 1, gen |->
             /\ mode = "org" => OrgLaw(x)
 Population == /\ mode = "genome" /\ g.genes # <<>> => PopLaw(<<g, [g EXCEPT !.id = 8]>>)
               /\ mode = "pop" => PopLaw(x)
+              /\ mode = "popsp" => BySpeciesLaw(x)
 FastModel == mode = "genome" /\ phase \in {"genes", "mods"} => FastLaw(FastOf(g, "net"))
 ExperimentFile == mode = "exp" => ExpLaw(ExpOf(x))
 (* reading into a used value: the target held nothing, a smaller, the same or another (larger) experiment whose statistics were computed *)
